@@ -66,3 +66,66 @@ fn c14_smh2_free_n4() {
 fn c14_smh2_method_m3() {
     c14_method2::<3>();
 }
+
+// =====================================================================================
+// C13 — reinit() from arbitrary content == new(size)
+// =====================================================================================
+use crate::fyshuffle::verif_kani as fyk;
+
+pub(crate) fn garbage_smh2(m: usize) -> Smh2 {
+    let mut s = Smh2::new(m, BuildHasherDefault::<NoHashHasher>::default());
+    for i in 0..m {
+        s.hsketch[i] = kani::any();
+        s.values[i] = kani::any();
+        s.l[i] = kani::any();
+        s.b[i] = kani::any();
+    }
+    s.item_rank = kani::any();
+    s.a_upper = kani::any();
+    s.permut_generator = fyk::garbage_shuffle(m);
+    s
+}
+
+/// field-wise equality (exhaustive patterns: a new field breaks compilation instead of being skipped);
+/// the shuffle is compared up to its two fresh representations (C17 shows they draw identically)
+pub(crate) fn fresh_state_smh2(x: &Smh2, m: usize) -> bool {
+    let SuperMinHash2 { hsketch, values, l, b, item_rank, a_upper, permut_generator, b_hasher: _, t_marker: _, f_marker: _ } = x;
+    let mut ok = hsketch.len() == m && values.len() == m && l.len() == m && b.len() == m;
+    ok = ok && *item_rank == 0 && *a_upper == m - 1 && fyk::is_fresh(permut_generator, m);
+    if ok {
+        for i in 0..m {
+            ok = ok && hsketch[i] == 0 && values[i] == usize::MAX && l[i] == m - 1 && b[i] == if i == m - 1 { m } else { 0 };
+        }
+    }
+    ok
+}
+
+fn c13_reinit2<const M: usize>() {
+    let mut s = garbage_smh2(M);
+    s.reinit();
+    assert!(fresh_state_smh2(&s, M));
+    let n = Smh2::new(M, BuildHasherDefault::<NoHashHasher>::default());
+    assert!(fresh_state_smh2(&n, M));
+    kani::cover!(true, "witness");
+}
+
+#[kani::proof]
+#[kani::unwind(5)]
+fn c13_smh2_m2() {
+    c13_reinit2::<2>();
+}
+#[kani::proof]
+#[kani::unwind(6)]
+fn c13_smh2_m3() {
+    c13_reinit2::<3>();
+}
+#[kani::proof]
+#[kani::unwind(8)]
+fn c13_smh2_m5() {
+    c13_reinit2::<5>();
+}
+#[kani::proof]
+#[kani::unwind(4)]
+fn c13_smh2_m1() {
+    c13_reinit2::<1>();
+}
